@@ -1422,3 +1422,350 @@ Proof.
   eapply Forall_impl; [|apply (inv_hb _ HI)]. intros [[b lo] n] ((Hb & _) & Hin).
   split; auto. pose proof (inv_cur _ HI). lia.
 Qed.
+
+(* ------------------------------------------------------------------------------------------------ *)
+(* a static sufficient condition for the no-carry regime                                             *)
+(* ------------------------------------------------------------------------------------------------ *)
+Definition sumN (l : list N) : N := fold_right N.add 0 l.
+
+Lemma sumN_upd {A} (f : A -> N) (l : list A) t p d : (t < length l)%nat ->
+  sumN (map f (upd l t p)) + f (nth t l d) = sumN (map f l) + f p.
+Proof.
+  revert t; induction l as [|a l IH]; intros [|t] Ht; cbn [length] in Ht; try lia; cbn [upd map sumN fold_right nth].
+  - lia.
+  - specialize (IH t ltac:(lia)). unfold sumN in IH. lia.
+Qed.
+
+Lemma sumN_le {A} (f : A -> N) (l : list A) b : (forall x, f x <= b) -> sumN (map f l) <= N.of_nat (length l) * b.
+Proof.
+  intros H. induction l as [|a l IH]; cbn [map sumN fold_right length]; [lia|].
+  specialize (H a). unfold sumN in IH. lia.
+Qed.
+
+Lemma sumN_ext {A} (f g : A -> N) (l : list A) : (forall x, f x = g x) -> sumN (map f l) = sumN (map g l).
+Proof. intros H. induction l as [|a l IH]; cbn [map sumN fold_right]; auto. unfold sumN in IH. now rewrite H, IH. Qed.
+
+(* the bytes a goroutine has added to the offset of the CURRENT chunk by an add that overshot the chunk *)
+Definition failed_here (st : astate) (p : apc) : N :=
+  match p with
+  | TAdded sz pos => if (cidx pos =? cur st) && (chunk_len (chunks st) (cur st) <? cpos pos) then sz else 0
+  | TWantLock sz b | TLocked sz b | TGrow sz b | TGrown sz b => if b =? cur st then sz else 0
+  | _ => 0
+  end.
+Definition pend (st : astate) : N := sumN (map (failed_here st) (threads st)).
+
+(* the mutex was left locked by a goroutine that panicked at the 64-chunk limit: nobody will ever hold it again *)
+Definition orphaned (st : astate) : Prop := lock st <> None /\ forall t, holds (get_pc st t) = false.
+
+Section StaticRegime.
+Variable B : N.
+
+Definition sizes_ok (st : astate) : Prop := forall t sz, req_size (get_pc st t) = Some sz -> sz <= B.
+
+Record K (st : astate) : Prop := {
+  k_inv : Inv st;
+  k_cb : chunk_bound (chunks st);
+  k_sz : sizes_ok st;
+  k_off : exists o, (o = 0 \/ (o = B /\ orphaned st)) /\ off st <= 2 * max_alloc + o + pend st
+}.
+
+Lemma failed_here_le st p : sizes_ok st -> (exists t, get_pc st t = p) -> failed_here st p <= B.
+Proof.
+  intros Hs (t & E). specialize (Hs t). rewrite E in Hs.
+  destruct p; cbn [failed_here]; try lia;
+    repeat match goal with |- context [if ?c then _ else _] => destruct c end; try lia; apply Hs; reflexivity.
+Qed.
+
+Lemma pend_le st : sizes_ok st -> pend st <= N.of_nat (length (threads st)) * B.
+Proof.
+  intros Hs. unfold pend.
+  assert (G : forall l, (forall p, In p l -> exists t, get_pc st t = p) ->
+              sumN (map (failed_here st) l) <= N.of_nat (length l) * B).
+  { induction l as [|a l IH]; intros Hl; cbn [map sumN fold_right length]; [lia|].
+    pose proof (failed_here_le st a Hs (Hl a (or_introl eq_refl))).
+    assert (sumN (map (failed_here st) l) <= N.of_nat (length l) * B) by (apply IH; intros; apply Hl; now right).
+    unfold sumN in *. lia. }
+  apply G. intros p Hp. apply In_nth with (d := TIdle) in Hp. destruct Hp as (t & _ & E). exists t. exact E.
+Qed.
+
+Lemma K_nocarry st c : K st -> (N.of_nat (length (threads st)) + 2) * B < 2 * max_alloc ->
+  nocarry_step st c.
+Proof.
+  intros HK HB. destruct c; cbn [nocarry_step]; auto.
+  destruct (get_pc st t) eqn:E; auto.
+  destruct (k_off _ HK) as (o & Ho & Hoff). pose proof (pend_le st (k_sz _ HK)) as Hp.
+  pose proof (k_sz _ HK t sz) as Hs. rewrite E in Hs. specialize (Hs eq_refl).
+  assert (o <= B) by (destruct Ho as [->|(-> & _)]; lia).
+  fold (off st). rewrite two32_val, max_alloc_val in *. nia.
+Qed.
+
+Lemma failed_here_frame st st' p : cur st' = cur st ->
+  chunk_len (chunks st') (cur st) = chunk_len (chunks st) (cur st) -> failed_here st' p = failed_here st p.
+Proof. intros Hc Hl. destruct p; cbn [failed_here]; rewrite ?Hc, ?Hl; reflexivity. Qed.
+
+Lemma pend_update st st' t p' : (t < length (threads st))%nat -> threads st' = upd (threads st) t p' ->
+  cur st' = cur st -> chunk_len (chunks st') (cur st) = chunk_len (chunks st) (cur st) ->
+  pend st' + failed_here st (get_pc st t) = pend st + failed_here st p'.
+Proof.
+  intros Ht Hth Hc Hl. unfold pend. rewrite Hth.
+  rewrite (sumN_ext (failed_here st') (failed_here st)) by (intros; now apply failed_here_frame).
+  apply sumN_upd. exact Ht.
+Qed.
+
+Lemma orphaned_update st st' t p' : (t < length (threads st))%nat -> threads st' = upd (threads st) t p' ->
+  lock st' = lock st -> holds p' = false -> orphaned st -> orphaned st'.
+Proof.
+  intros Ht Hth Hl Hh (Ho1 & Ho2). split; [now rewrite Hl|].
+  intros t'. rewrite (get_pc_upd st st' t p' t' Hth Ht). destruct (Nat.eq_dec t t'); auto.
+Qed.
+
+Lemma koff_update st st' t p' : K st -> (t < length (threads st))%nat -> threads st' = upd (threads st) t p' ->
+  cur st' = cur st -> chunk_len (chunks st') (cur st) = chunk_len (chunks st) (cur st) ->
+  (orphaned st -> orphaned st') ->
+  off st' + failed_here st (get_pc st t) <= off st + failed_here st p' \/ off st' <= 2 * max_alloc ->
+  exists o, (o = 0 \/ (o = B /\ orphaned st')) /\ off st' <= 2 * max_alloc + o + pend st'.
+Proof.
+  intros HK Ht Hth Hc Hl Hor Hoff. destruct (k_off _ HK) as (o & Ho & Hle).
+  pose proof (pend_update st st' t p' Ht Hth Hc Hl) as Hp.
+  exists o. split; [destruct Ho as [->|(-> & Hx)]; auto|]. destruct Hoff; lia.
+Qed.
+
+Lemma sumN_zero {A} (f : A -> N) (l : list A) : (forall x, In x l -> f x = 0) -> sumN (map f l) = 0.
+Proof.
+  induction l as [|a l IH]; intros H; cbn [map sumN fold_right]; auto.
+  rewrite (H a (or_introl eq_refl)). unfold sumN in IH. rewrite IH; [reflexivity|]. intros; apply H; now right.
+Qed.
+
+Lemma pend_quiescent st : a_quiescent st = true -> pend st = 0.
+Proof.
+  unfold a_quiescent, pend. intros H. rewrite forallb_forall in H. apply sumN_zero.
+  intros p Hp. specialize (H p Hp). destruct p; cbn in *; try discriminate; reflexivity.
+Qed.
+
+Lemma sizes_step st t st' : thread_step st t = Some st' -> sizes_ok st -> sizes_ok st'.
+Proof.
+  intros H Hs t' sz' E.
+  destruct (req_size (get_pc st t)) as [sz|] eqn:Er.
+  - destruct (thread_step_size st t st' sz Er H) as (Hm & Hother).
+    destruct (Nat.eq_dec t' t) as [->|Hne].
+    + destruct (get_pc st' t) as [| | | | | | | | |o] eqn:E1; cbn [req_size] in *; try discriminate;
+        try (rewrite Hm in E; inversion E; subst; apply (Hs t sz'); exact Er).
+    + rewrite Hother in E by auto. apply (Hs t' sz' E).
+  - unfold thread_step in H. destruct (get_pc st t); cbn in Er; discriminate.
+Qed.
+
+Lemma bound_step st t st' : thread_step st t = Some st' -> chunk_bound (chunks st) -> chunk_bound (chunks st').
+Proof.
+  unfold thread_step. intros H Hb.
+  destruct (get_pc st t); try discriminate;
+    repeat match type of H with
+           | (if ?c then _ else _) = _ => destruct c
+           end; try discriminate; try (inversion H; subst st'; sstate; auto; fail).
+  destruct (add_buffer_at (chunks st) (b + 1) sz) eqn:E; inversion H; subst st'; sstate; auto.
+  eapply add_buffer_at_bound; eauto.
+Qed.
+
+Lemma K_thread_step st t st' : K st -> thread_step st t = Some st' -> nocarry_step st (AcStep t) -> K st'.
+Proof.
+  intros HK H Hnc. pose proof (k_inv _ HK) as HI.
+  assert (HI' : Inv st') by (eapply inv_thread_step; [exact HI|exact H|now apply nocarry_step_off]).
+  constructor; [exact HI'|eapply bound_step; eauto; apply (k_cb _ HK)|eapply sizes_step; eauto; apply (k_sz _ HK)|].
+  pose proof (inv_pcs _ HI t) as Hk. pose proof (k_cb _ HK (cur st)) as Hcb.
+  assert (Hsz : forall sz, req_size (get_pc st t) = Some sz -> sz <= B) by (intros; eapply (k_sz _ HK); eauto).
+  unfold thread_step in H. destruct (get_pc st t) eqn:E; try discriminate; cbn [pc_ok] in Hk.
+  all: assert (Ht : (t < length (threads st))%nat) by (apply get_pc_live; congruence).
+  - (* Req *)
+    apply nocarry_step_off in Hnc. rewrite E in Hnc.
+    destruct (faa_nocarry (compIdx st) sz (inv_cur _ HI) Hnc) as (Ea & Ec & Ep).
+    inversion H; subst st'; clear H. rewrite Ea.
+    apply (koff_update st _ t (TAdded sz (compIdx st + sz)) HK Ht); try reflexivity.
+    + unfold cur; sstate. exact Ec.
+    + apply orphaned_update with (t := t) (p' := TAdded sz (compIdx st + sz)); auto.
+    + rewrite E. cbn [failed_here]. rewrite Ec, Ep. fold (cur st) (off st). rewrite N.eqb_refl. cbn [andb].
+      assert (Eo : off (set_pc (set_comp st (compIdx st + sz)) t (TAdded sz (compIdx st + sz))) = off st + sz)
+        by (unfold off; sstate; exact Ep).
+      rewrite Eo.
+      destruct (N.ltb_spec (chunk_len (chunks st) (cur st)) (off st + sz)); [left; lia|right; lia].
+  - (* Added *)
+    destruct Hk as (Hs & Hb & Hsp & Hpo). pose proof (inv_cur _ HI) as Hcur. rewrite (lenN_chunks _ HI) in H.
+    destruct (N.leb_spec 64 (cidx pos)); [lia|].
+    destruct (N.ltb_spec (chunk_len (chunks st) (cidx pos)) (cpos pos)); inversion H; subst st'; clear H.
+    + apply (koff_update st _ t (TWantLock sz (cidx pos)) HK Ht); try reflexivity.
+      * apply orphaned_update with (t := t) (p' := TWantLock sz (cidx pos)); auto.
+      * left. rewrite E. cbn [failed_here]. change (off (set_pc st t (TWantLock sz (cidx pos)))) with (off st).
+        destruct (N.eqb_spec (cidx pos) (cur st)) as [Eq|]; cbn [andb]; [|lia].
+        rewrite <- Eq. destruct (N.ltb_spec (chunk_len (chunks st) (cidx pos)) (cpos pos)); lia.
+    + apply (koff_update st _ t (TFits sz (cidx pos) (cpos pos)) HK Ht); try reflexivity.
+      * apply orphaned_update with (t := t) (p' := TFits sz (cidx pos) (cpos pos)); auto.
+      * left. rewrite E. cbn [failed_here]. change (off (set_pc st t (TFits sz (cidx pos) (cpos pos)))) with (off st).
+        destruct (N.eqb_spec (cidx pos) (cur st)) as [Eq|]; cbn [andb]; [|lia].
+        rewrite <- Eq. destruct (N.ltb_spec (chunk_len (chunks st) (cidx pos)) (cpos pos)); lia.
+  - (* Fits *)
+    destruct (p <? sz); inversion H; subst st'; clear H.
+    + apply (koff_update st _ t (TDone (OPanic (PSlice p sz))) HK Ht); try reflexivity.
+      * apply orphaned_update with (t := t) (p' := TDone (OPanic (PSlice p sz))); auto.
+      * left. rewrite E. cbn [failed_here]. change (off (set_pc st t _)) with (off st). lia.
+    + apply (koff_update st _ t (TDone (ORange b (p - sz) sz)) HK Ht); try reflexivity.
+      * apply orphaned_update with (t := t) (p' := TDone (ORange b (p - sz) sz)); auto.
+      * left. rewrite E. cbn [failed_here]. change (off (set_pc (set_handed st _) t _)) with (off st). lia.
+  - (* WantLock *)
+    destruct (lock st) eqn:EL; [discriminate|]. inversion H; subst st'; clear H.
+    apply (koff_update st _ t (TLocked sz b) HK Ht); try reflexivity.
+    + intros (Hx & _). congruence.
+    + left. rewrite E. cbn [failed_here]. change (off (set_pc (set_lock st (Some t)) t _)) with (off st). lia.
+  - (* Locked *)
+    assert (Hno : orphaned st -> False).
+    { intros (_ & Hx). specialize (Hx t). rewrite E in Hx. discriminate. }
+    destruct (N.eqb_spec (cidx (compIdx st)) b) as [Eb|Eb]; inversion H; subst st'; clear H.
+    + apply (koff_update st _ t (TGrow sz b) HK Ht); try reflexivity; [intros Hx; destruct (Hno Hx)|].
+      left. rewrite E. cbn [failed_here]. change (off (set_pc st t _)) with (off st). lia.
+    + apply (koff_update st _ t (TUnlocking sz) HK Ht); try reflexivity; [intros Hx; destruct (Hno Hx)|].
+      left. rewrite E. cbn [failed_here]. change (off (set_pc st t _)) with (off st).
+      unfold cur. destruct (N.eqb_spec b (cidx (compIdx st))); [congruence|lia].
+  - (* Grow *)
+    assert (Hno : orphaned st -> False).
+    { intros (_ & Hx). specialize (Hx t). rewrite E in Hx. discriminate. }
+    destruct Hk as (Hs & Hb).
+    pose proof (add_buffer_at_spec (chunks st) (b + 1) sz (inv_len _ HI) (proj2 Hs)) as Hab.
+    destruct (add_buffer_at (chunks st) (b + 1) sz) as [| |cs] eqn:Eab; [|contradiction|]; inversion H; subst st'; clear H.
+    + (* 64-chunk panic: the failed add stays in the offset, the mutex stays locked *)
+      destruct (k_off _ HK) as (o & Ho & Hle).
+      assert (o = 0) by (destruct Ho as [->|(_ & Hx)]; [reflexivity|destruct (Hno Hx)]). subst o.
+      pose proof (pend_update st (set_pc st t (TDone (OPanic PLimit64))) t (TDone (OPanic PLimit64)) Ht
+                    eq_refl eq_refl eq_refl) as Hp.
+      rewrite E in Hp. cbn [failed_here] in Hp. rewrite Hb, N.eqb_refl in Hp.
+      exists B. split.
+      * right. split; [reflexivity|]. split.
+        -- sstate. rewrite (inv_lock _ HI t) by (rewrite E; reflexivity). discriminate.
+        -- intros t'. rewrite get_set by auto. destruct (Nat.eq_dec t t'); [reflexivity|].
+           destruct (holds (get_pc st t')) eqn:Eh; [|reflexivity].
+           exfalso. apply n. symmetry. apply (inv_lock_unique st t t' HI); [rewrite E; reflexivity|exact Eh].
+      * change (off (set_pc st t _)) with (off st). specialize (Hsz sz eq_refl). lia.
+    + destruct Hab as (Hlen & Hk1 & Hsame).
+      apply (koff_update st _ t (TGrown sz b) HK Ht); try reflexivity; [| intros Hx; destruct (Hno Hx)|].
+      * sstate. unfold chunk_len. rewrite Hsame; [reflexivity|left; lia].
+      * left. rewrite E. cbn [failed_here]. change (off (set_pc (set_chunks st cs) t _)) with (off st). lia.
+  - (* Grown: the Store starts a new epoch at offset 0 *)
+    destruct Hk as (_ & Hb & Hb1). destruct (store_next b Hb1) as (Ec & Ep).
+    inversion H; subst st'; clear H. exists 0. split; [left; reflexivity|].
+    unfold off at 1; sstate. rewrite Ep. lia.
+  - (* Unlocking *)
+    assert (Hno : orphaned st -> False).
+    { intros (_ & Hx). specialize (Hx t). rewrite E in Hx. discriminate. }
+    inversion H; subst st'; clear H.
+    apply (koff_update st _ t (TReq sz) HK Ht); try reflexivity; [intros Hx; destruct (Hno Hx)|].
+    left. rewrite E. cbn [failed_here]. change (off (set_pc (set_lock st None) t _)) with (off st). lia.
+Qed.
+
+Lemma K_start st t sz : K st -> (t < length (threads st))%nat -> pc_returned (get_pc st t) = true -> sz <= B ->
+  K (set_pc st t (start_pc sz)).
+Proof.
+  intros HK Ht Hr Hsz. pose proof (k_inv _ HK) as HI.
+  assert (Hh : holds (start_pc sz) = false).
+  { unfold start_pc. destruct (max_alloc <? sz); [reflexivity|]. destruct (sz =? 0); reflexivity. }
+  assert (Hf : failed_here st (start_pc sz) = 0).
+  { unfold start_pc. destruct (max_alloc <? sz); [reflexivity|]. destruct (sz =? 0); reflexivity. }
+  constructor.
+  - now apply inv_start.
+  - apply (k_cb _ HK).
+  - intros t' sz' E. rewrite get_set in E by auto. destruct (Nat.eq_dec t t'); [|apply (k_sz _ HK t' sz' E)].
+    unfold start_pc in E. destruct (max_alloc <? sz); [discriminate|]. destruct (sz =? 0); [discriminate|].
+    inversion E; subst; auto.
+  - apply (koff_update st _ t (start_pc sz) HK Ht); try reflexivity.
+    + apply orphaned_update with (t := t) (p' := start_pc sz); auto.
+    + left. rewrite Hf. change (off (set_pc st t (start_pc sz))) with (off st).
+      destruct (get_pc st t); cbn in Hr; try discriminate; cbn [failed_here]; lia.
+Qed.
+
+Lemma K_reset st : K st -> a_quiescent st = true -> K (set_handed (set_comp st 0) []).
+Proof.
+  intros HK Hq. constructor.
+  - apply inv_reset; [apply (k_inv _ HK)|exact Hq].
+  - apply (k_cb _ HK).
+  - apply (k_sz _ HK).
+  - exists 0. split; [left; reflexivity|]. change (off (set_handed (set_comp st 0) [])) with 0. lia.
+Qed.
+
+Lemma K_trim st max : K st -> a_quiescent st = true -> K (set_chunks st (trim_loop (chunks st) 0 max)).
+Proof.
+  intros HK Hq. constructor.
+  - apply inv_trim; [apply (k_inv _ HK)|exact Hq].
+  - sstate. apply trim_loop_bound. apply (k_cb _ HK).
+  - apply (k_sz _ HK).
+  - destruct (k_off _ HK) as (o & Ho & Hle). rewrite (pend_quiescent st Hq) in Hle.
+    exists o. split; [destruct Ho as [->|(-> & Hx)]; auto|].
+    change (off (set_chunks st (trim_loop (chunks st) 0 max))) with (off st). lia.
+Qed.
+
+Definition start_le (c : achoice) : Prop := match c with AcStart _ sz => sz <= B | _ => True end.
+
+Lemma K_agstep st c st' : K st -> agstep st c = Some st' -> start_le c -> nocarry_step st c -> K st'.
+Proof.
+  intros HK H Hc Hnc. destruct c as [t sz|t| |max]; cbn [agstep astep] in H.
+  - destruct (Nat.ltb_spec t (length (threads st))); [|discriminate]. cbn [andb] in H.
+    destruct (pc_returned (get_pc st t)) eqn:Hr; [|discriminate]. inversion H; subst st'. now apply K_start.
+  - eapply K_thread_step; eauto.
+  - destruct (a_quiescent st) eqn:Hq; [|discriminate]. inversion H; subst st'. now apply K_reset.
+  - destruct (a_quiescent st) eqn:Hq; [|discriminate]. inversion H; subst st'. now apply K_trim.
+Qed.
+
+Lemma agstep_length st c st' : agstep st c = Some st' -> length (threads st') = length (threads st).
+Proof.
+  intros H. destruct c as [t sz|t| |max]; cbn [agstep astep] in H.
+  - destruct ((t <? length (threads st))%nat && pc_returned (get_pc st t)); inversion H; subst. apply length_set_pc.
+  - unfold thread_step in H.
+    destruct (get_pc st t); try discriminate;
+      repeat match type of H with
+             | (if ?c then _ else _) = _ => destruct c
+             | match add_buffer_at ?a ?b ?c with _ => _ end = _ => destruct (add_buffer_at a b c)
+             end; try discriminate; inversion H; subst st'; rewrite length_set_pc; reflexivity.
+  - destruct (a_quiescent st); inversion H; subst. reflexivity.
+  - destruct (a_quiescent st); inversion H; subst. reflexivity.
+Qed.
+
+Lemma static_run sched : forall st, K st -> (N.of_nat (length (threads st)) + 2) * B < 2 * max_alloc ->
+  Forall start_le sched -> nocarry_run st sched.
+Proof.
+  induction sched as [|c rest IH]; intros st HK HB Hs; cbn [nocarry_run]; auto.
+  inversion Hs; subst. destruct (agstep st c) as [st'|] eqn:E; [|apply IH; auto].
+  pose proof (K_nocarry st c HK HB) as Hnc. split; [exact Hnc|].
+  apply IH; auto.
+  - eapply K_agstep; eauto.
+  - now rewrite (agstep_length _ _ _ E).
+Qed.
+
+Lemma new_chunk_bound n sz : sz <= max_alloc -> chunk_bound (chunks (alloc_new n sz)).
+Proof. intros Hs. apply (sx_cb _ (proj1 (seqq_new sz Hs))). Qed.
+
+Lemma K_new n sz : sz <= max_alloc -> K (alloc_new n sz).
+Proof.
+  intros Hs. constructor.
+  - apply inv_new.
+  - now apply new_chunk_bound.
+  - intros t sz' E. unfold get_pc, alloc_new in E; sstate. rewrite nth_repeat_idle in E. discriminate.
+  - exists 0. split; [left; reflexivity|]. change (off (alloc_new n sz)) with 0. lia.
+Qed.
+End StaticRegime.
+
+(* T goroutines, every request at most B bytes, (T+2)*B < 2 GiB, initial size at most 1 GiB: every schedule is in the
+   no-carry regime *)
+Theorem static_nocarry T B sz0 sched :
+  sz0 <= max_alloc -> (N.of_nat T + 2) * B < 2 * max_alloc -> Forall (start_le B) sched ->
+  nocarry_run (alloc_new T sz0) sched.
+Proof.
+  intros Hs HB Hf. apply (static_run B); auto.
+  - now apply K_new.
+  - unfold alloc_new; sstate. now rewrite repeat_length.
+Qed.
+
+Theorem disjoint_static T B sz0 sched :
+  sz0 <= max_alloc -> (N.of_nat T + 2) * B < 2 * max_alloc -> Forall (start_le B) sched ->
+  let st := agrun (alloc_new T sz0) sched in
+  ForallOrdPairs gdisj (handed st) /\
+  Forall (in_chunk st) (handed st) /\
+  (forall t g, grant_of (get_pc st t) = Some g -> Forall (gdisj g) (handed st)) /\
+  (forall t1 t2 g1 g2, t1 <> t2 -> grant_of (get_pc st t1) = Some g1 -> grant_of (get_pc st t2) = Some g2 ->
+     gdisj g1 g2) /\
+  (forall t e, get_pc st t = TDone (OPanic e) -> e = PTooBig \/ e = PLimit64) /\
+  cidx (compIdx st) < 64 /\ length (chunks st) = nbuf.
+Proof. intros Hs HB Hf. apply disjoint_all_schedules. now apply (static_nocarry T B). Qed.
